@@ -218,6 +218,12 @@ class FuseInterp:
             # the normal form: for inputs outside the canonical range it is no longer R_m of the signed sum
             if any(isinstance(x, ast.Name) and x.id == self.p_ch for x in ast.walk(node)):
                 raise NotLinearForm(node, j)
+            # a component computed from *other* columns of the signed sum (e.g. the parity of two U(1) components) is not the
+            # component-wise group law either
+            others = [self.col_index(x) for x in ast.walk(node) if isinstance(x, ast.Subscript)]
+            others = [c for c in others if c is not None and c[0] == name and c[1] != j]
+            if others:
+                raise ColumnMix(node, others[0], (name, j))
             self.err(node, "column store is not a modular reduction")
         ci = self.col_index(inner)
         if ci != (name, j):
@@ -805,6 +811,24 @@ def check_leg(chk):
     bad = [f"{k}={got.get(k)}" for k, v in want.items() if got.get(k) not in v]
     chk.verdict("G6", (cj, call), call, True if not bad else False,
                 f"Leg.conj is not the dual space with the same sectors: {bad}", got)
+    # LegMeta.conj: the meta-fused leg is mapped to its dual as well -- the result carries s = -self.s (and conjugated sub-legs)
+    lm = prog.module("yastn.tensor._legs").classes.get("LegMeta")
+    if lm is not None and "conj" in lm.methods:
+        mc = lm.methods["conj"]
+        mrets = A.returns_of(mc.node)
+        okm = False
+        why = "no constructor / replace call returned"
+        if len(mrets) == 1 and isinstance(mrets[0].value, ast.Call):
+            c_ = mrets[0].value
+            sk = A.kwarg(c_, "s")
+            okm = sk is not None and A.text(sk) in ("-self.s", "-1 * self.s", "self.s * -1")
+            why = f"s={A.text(sk) if sk is not None else '<inherited from self>'}"
+            lk = A.kwarg(c_, "legs")
+            okl = lk is not None and ("conj" in A.text(A.Inliner(mc.node).expand(lk)))
+            chk.verdict("G6", (mc, c_), "LegMeta.conj conjugates its sub-legs", True if okl else False, "LegMeta.conj does not conjugate the legs it is fused from")
+        chk.verdict("G6", (mc, mrets[0] if mrets else mc.node), f"LegMeta.conj returns the dual: {why}", True if okm else False,
+                    f"LegMeta.conj: the returned meta-fused leg has {why}, not s=-self.s: conj() of a meta-fused leg is not the dual space "
+                    f"(leg.conj() != a.conj().get_legs(n))")
     fus = prog.cls("yastn.tensor._merging", "_Fusion")
     fc = fus.methods.get("conj")
     chk.require(fc is not None, "_Fusion.conj not found")
